@@ -106,6 +106,11 @@ func TestVfC10Rules(t *testing.T) {
 		files := map[string]string{}
 		for f := 0; f < nFiles; f++ {
 			var sb strings.Builder
+			// the file's dress: line terminator, a last line without one, comment / blank lines around the entries
+			eol := rapid.SampledFrom([]string{"\n", "\n", "\r\n"}).Draw(t, "eol")
+			if rapid.IntRange(0, 3).Draw(t, "leadingNoise") == 0 {
+				sb.WriteString("# a comment" + eol + eol + "   \t" + eol)
+			}
 			for i := rapid.IntRange(0, 4).Draw(t, "nEntries"); i > 0; i-- {
 				e := c10Entry{kind: rapid.SampledFrom([]string{"full", "domain", "bare", "bare", "regexp"}).Draw(t, "kind")}
 				if e.kind == "regexp" {
@@ -114,9 +119,13 @@ func TestVfC10Rules(t *testing.T) {
 					e.name = c10GenName(t, 1)
 				}
 				fileEntries[f] = append(fileEntries[f], e)
-				sb.WriteString(e.line(t) + "\n")
+				sb.WriteString(e.line(t) + eol)
 			}
-			files[fmt.Sprintf("f%d.txt", f)] = sb.String()
+			content := sb.String()
+			if rapid.IntRange(0, 3).Draw(t, "noFinalNewline") == 0 {
+				content = strings.TrimSuffix(content, eol)
+			}
+			files[fmt.Sprintf("f%d.txt", f)] = content
 		}
 		nSets := rapid.IntRange(0, 3).Draw(t, "nSets")
 		setEntries := make([][]c10Entry, nSets)
